@@ -2,7 +2,7 @@
    Model = bcache with repairs D3, D24 and D32 (Model.v); fl = the int64 -> float64 score conversion, f64 its concrete form (spacing 256 for today's UnixNano,
    1024 for deadlines beyond 2^62 in magnitude); deadlines are computed in wrapping int64 arithmetic (wrap64). *)
 From VF Require Import Common.Base C12.Model C12.Spec C12.Proofs C12.Proofs2 C12.Interval C12.IntervalProofs
-  C12.F64 C12.Check C12.Proofs3 C12.DecidedProofs.
+  C12.F64 C12.Race C12.Check C12.Proofs3 C12.DecidedProofs C12.RaceProofs.
 From Coq Require Import Sorting.Sorted.
 Local Open Scope Z_scope.
 
@@ -142,6 +142,43 @@ Theorem C12_decided_sound_partial : forall defttl tr, decided_b 1024 defttl tr =
   forall ts, within tr ts -> Forall2 out_sim (spec_outputs f64 defttl tr ts) (observed tr).
 Proof. exact decided_sound_f64. Qed.
 
+(* concurrent race rounds (Race.v): several goroutines on one key whose entry has expired but was not evicted,
+   getters and writers released together, nothing deletes, nothing stored can expire. No false alarm: whenever
+   SOME linearisation of the round's calls (any order, instants inside the stores' clock brackets), run through
+   the reference semantics, returns what the calls returned and makes the epilogue Get return [final], the
+   checker accepts; and it does not depend on the order in which stores and gets are listed. *)
+Theorem C12_race_complete : forall fl defttl k T lin m te final,
+  (m_get m k = None \/ exists v d, m_get m k = Some (v, d) /\ forall t, In t T -> expired t d = true) ->
+  Forall (wf_ev k) lin -> Forall (keeps_ev defttl T) lin -> Forall (fun x => In (snd x) T) lin -> In te T ->
+  let run := srun fl defttl m (map (fun x => (snd x, ev_op k (fst x))) lin) in
+  snd run = map (fun x => ev_out (fst x)) lin ->
+  snd (sstep fl defttl (fst run) te (OGet k)) = OutGet final ->
+  race_ok defttl (stores_of lin) (gets_of lin) final = true.
+Proof. exact race_complete. Qed.
+
+Theorem C12_race_ok_perm : forall defttl stores stores' gets gets' final,
+  Permutation stores stores' -> Permutation gets gets' ->
+  race_ok defttl stores gets final = race_ok defttl stores' gets' final.
+Proof. exact race_ok_perm. Qed.
+
+(* non-vacuity of the race theorem: Get (evicts the expired old entry), SetIfAbsent (true), Get (hit),
+   Replace (true), Set untimed, Get; epilogue hit; and the seeded behaviour (epilogue miss after an
+   unconditional store) is rejected *)
+Example C12_nonvacuous_race :
+  let s1 := {| r_op := OSetIfAbsent 7 11 10000000; r_a := 2000; r_b := 2010; r_ok := true |} in
+  let s2 := {| r_op := OReplace 7 12 (-1); r_a := 2001; r_b := 2020; r_ok := true |} in
+  let s3 := {| r_op := OSet 7 13 (-1); r_a := 2002; r_b := 2030; r_ok := true |} in
+  let lin := [(EGet None, 2001); (EStore s1, 2005); (EGet (Some (11, 10002005)), 2006); (EStore s2, 2010);
+              (EStore s3, 2011); (EGet (Some (13, 0)), 2012)] in
+  let m := [(7, (-8, 1500))] in
+  let run := srun f64 0 m (map (fun x => (snd x, ev_op 7 (fst x))) lin) in
+  snd run = map (fun x => ev_out (fst x)) lin /\
+  snd (sstep f64 0 (fst run) 2100 (OGet 7)) = OutGet (Some (13, 0)) /\
+  race_ok 0 (stores_of lin) (gets_of lin) (Some (13, 0)) = true /\
+  race_ok 0 (stores_of lin) (gets_of lin) None = false /\
+  race_ok 0 (stores_of lin) (gets_of lin) (Some (-8, 1500)) = false.
+Proof. vm_compute. repeat split; reflexivity. Qed.
+
 (* non-vacuity: a timed set, an untimed re-set of the same key, a sweep past the old deadline, gets *)
 Example C12_nonvacuous :
   let tops := [(1000, OSet 1 10 40); (1010, OSet 1 11 (-1)); (2000, OSweep); (2010, OGet 1);
@@ -262,3 +299,5 @@ Print Assumptions C12_wrapped_never_expires.
 Print Assumptions C12_admissible_complete.
 Print Assumptions C12_kind2_iff_inadmissible.
 Print Assumptions C12_decided_sound_partial.
+Print Assumptions C12_race_complete.
+Print Assumptions C12_race_ok_perm.
